@@ -5,7 +5,8 @@ From Coq Require Import List Arith ZArith Ring Lia Reals.
 From TLV Require Import Base.Shape Base.PyList Base.Tensor Base.Ops Model.SvdDecomp Proofs.SvdDecompProofs
      Proofs.SvdDecompProofsR Proofs.SvdDecompTucker Proofs.SvdDecompTuckerFull Proofs.SvdDecompTuckerR
      Proofs.SvdDecompRing Proofs.SvdDecompRingR Proofs.SvdDecompPyth Proofs.SvdDecompError
-     Proofs.SvdDecompTails Proofs.SvdDecompErrorR Proofs.SvdDecompTTM.
+     Proofs.SvdDecompTails Proofs.SvdDecompErrorR Proofs.SvdDecompTTM
+     Proofs.SvdDecompHooi Proofs.SvdDecompHooiR Proofs.SvdDecompRanks.
 Import ListNotations.
 
 (* exactness of one TT-SVD step, over every commutative ring: truncating + sign-flipping a
@@ -360,3 +361,46 @@ Proof.
   split; [simpl; lia|].
   vm_compute. repeat constructor.
 Qed.
+
+(* the invariant of one HOOI update (every commutative ring, every order): if all the other current factors fit
+   X (orthonormal columns spanning the mode fibres) and the new factor fits the core approximation
+   Y = X x_{j <> m} U_j^T, then it fits X *)
+Theorem C09_hooi_update_fits : forall (F : Type) (Op : fops F),
+  ring_theory (f0 Op) (f1 Op) (fadd Op) (fmul Op) (fsub Op) (fopp Op) (@eq F) ->
+  forall (X : tensor F) (fs : list (tensor F)) (m : nat) (Y U' : tensor F),
+  wf X -> m < ndim X -> length fs <= ndim X ->
+  factors_span_sk Op (Some m) X fs 0 -> multi_mode_dot Op X fs 0 (Some m) true = Ok Y ->
+  fitp Op Y U' m -> fitp Op X U' m.
+Proof. exact @hooi_update_fits. Qed.
+Print Assumptions C09_hooi_update_fits.
+
+(* tucker(init="svd", tol=0) over R, every order, every rank request with rank <= number of singular triplets,
+   ANY number of HOOI sweeps: if every SVD call of the initialisation and of the sweeps meets the plain SVD
+   contract and discards only zero singular values, tucker_to_tensor of the result is X *)
+Theorem C09_tucker_exact_R : forall (svd : nat -> tensor R -> svdans) (X : tensor R) (rank : rank_spec) (n_iter : nat)
+    (core : tensor R) (fs : list (tensor R)),
+  wf X -> 0 < prod (shape X) ->
+  hosvd_contract svd X (validate_tucker_rank (ndim X) rank) 0 0 ->
+  match hosvd_factors Rops svd X (validate_tucker_rank (ndim X) rank) 0 0 with
+  | Ok fs0 => hooi_iter_contract svd X (validate_tucker_rank (ndim X) rank) n_iter (ndim X) fs0
+  | Err => True
+  end ->
+  tucker Rops svd X rank n_iter = Ok (core, fs) ->
+  tucker_to_tensor Rops core fs = Ok X.
+Proof. exact tucker_exact_R. Qed.
+Print Assumptions C09_tucker_exact_R.
+
+(* the returned ranks respect the request (any carrier, any oracle, no contract needed): the right bond of every
+   core computed by the sequential loop of tensor_train / tensor_ring is at most the requested rank *)
+Theorem C09_chain_loop_ranks_respected : forall (F : Type) (Op : fops F) (svd : nat -> tensor F -> svdans)
+    (sizes : list nat) (k : nat) (ranks : list nat) (rk r0 : nat) (W : list F) (cores : list (tensor F)),
+  chain_loop Op svd k sizes ranks rk r0 W = Ok cores -> ranks_respected cores ranks.
+Proof. exact @chain_loop_ranks_respected. Qed.
+Print Assumptions C09_chain_loop_ranks_respected.
+
+Theorem C09_tensor_train_ranks_respected : forall (F : Type) (Op : fops F) (svd : nat -> tensor F -> svdans)
+    (X : tensor F) (rank : rank_spec) (cores : list (tensor F)),
+  tensor_train Op svd X rank = Ok cores ->
+  match validate_tt_rank (ndim X) rank with Ok rk => ranks_respected cores (tl rk) | Err => False end.
+Proof. exact @tensor_train_ranks_respected. Qed.
+Print Assumptions C09_tensor_train_ranks_respected.
